@@ -53,6 +53,11 @@ MUTANTS = [
      "    if trace is None:\n        return abs(amplitude) * mask.to(dtype=observation.dtype)\n    else:\n        return torch.where(mask, amplitude, decay * trace)"),
     ("trace_cum_scaled_decays_new", "C07", 3000, "inferno/core/trace.py",
      "        return (decay * trace) + (scale * observation + amplitude) * mask", "        return decay * (trace + (scale * observation + amplitude) * mask)"),
+    ("nrn_alif_dt_setter_ignored", "C03", 4000, "inferno/neural/neurons/linear.py",
+     '    @dt.setter\n    def dt(self, value: float) -> None:\n        self.step_time = argtest.gt("dt", value, 0, float)',
+     '    @dt.setter\n    def dt(self, value: float) -> None:\n        argtest.gt("dt", value, 0, float)', 1),
+    ("trace_nearest_dt_setter_keeps_decay", "C07", 6000, "inferno/observe/reducers/trace.py",
+     "        FoldReducer.dt.fset(self, value)\n        self.decay = exp(-self.dt / self.time_constant)", "        FoldReducer.dt.fset(self, value)", 0),
     ("nrn_refrac_no_clamp", "C03", 2000, "inferno/neural/functional/neuron_dynamics.py",
      "    refracs = (refracs - step_time).clamp(min=0)\n    mask = refracs == 0\n\n    # compute updated voltages\n    if voltages is None:\n        voltages = dynamics(inputs * mask)\n    else:\n        voltages = voltages.where(~mask, dynamics(inputs * mask))\n\n    # determine which neurons have spiked\n    spikes = torch.logical_and(mask, voltages >= thresh_v)\n\n    # set refractory period and voltages of fired neurons to their reset state\n    refracs = refracs.where(~spikes, refrac_t)\n    voltages = voltages.where(~spikes, reset_v)",
      "    refracs = (refracs - step_time)\n    mask = refracs <= 0\n\n    # compute updated voltages\n    if voltages is None:\n        voltages = dynamics(inputs * mask)\n    else:\n        voltages = voltages.where(~mask, dynamics(inputs * mask))\n\n    # determine which neurons have spiked\n    spikes = torch.logical_and(mask, voltages >= thresh_v)\n\n    # set refractory period and voltages of fired neurons to their reset state\n    refracs = refracs.where(~spikes, refrac_t)\n    voltages = voltages.where(~spikes, reset_v)"),
